@@ -148,7 +148,10 @@ def indent(src: str, n: int = 4) -> str:
 
 
 def build_module(rng, gated: set, idx: int, n_decls: int):
-    lines = ["from __future__ import annotations\n\n\ndef _untyped_source():\n    ...\n\n\nclass Base0:\n    pass\n\n\nclass Base1:\n    pass\n\n\nclass Base2:\n    pass\n\n\n"]
+    lines = ["from __future__ import annotations\n\nfrom typing import Generic, TypeVar\n\n"
+             'TvPair = TypeVar("TvPair", bound=tuple[int, str], covariant=True)\nTvSet = TypeVar("TvSet", bound=set[int], contravariant=True)\n'
+             'TvPlain = TypeVar("TvPlain")\nTvChoice = TypeVar("TvChoice", set[int], list[int])\nTvBound = TypeVar("TvBound", bound=int, covariant=True)\n'
+             "\n\ndef _untyped_source():\n    ...\n\n\nclass Base0:\n    pass\n\n\nclass Base1:\n    pass\n\n\nclass Base2:\n    pass\n\n\n"]
     gt = {}  # declaration path -> expected marker ids
     for j in range(n_decls):
         kind = rng.choice(["func", "func", "class", "class"])
@@ -164,6 +167,11 @@ def build_module(rng, gated: set, idx: int, n_decls: int):
             cmarks = set()
             if nb > 1:
                 cmarks.add("multiple-inheritance")
+            # class-level type parameters: flagged types in a bound / in value constraints belong to the class header
+            gen = rng.choice([None, None, None, ("TvPair", {"tuple"}), ("TvSet", {"set"}), ("TvPlain", set()), ("TvChoice", {"set"}), ("TvBound", set())])
+            if gen is not None:
+                bases.append(f"Generic[{gen[0]}]")
+                cmarks |= gen[1]
             body = []
             # class attributes
             for a in range(rng.randint(0, 3)):
